@@ -8,6 +8,10 @@ NOTES = ("Model-based verification with explicit TLA+ specifications (specs/). E
 NOT_APPLICABLE = {}
 TRUST = "TLC and the Json community module; the renderer/tokeniser glue in lib/pp.py; the hook lines in /repo; bounded universes as stated in the evidence file"
 CHECKS = {
+ "C03": {"level": "model_checking", "design_ref": "DESIGN.md 4.3, 5 (C03)",
+         "technique": "TLA+ spec Origins (B-tree with the overlapping-range ordering vs. pushed segments) model-checked with TLC; push/merge hook events of real runs replayed through it and every byte's origin(p) validated by TLC (Origins_Trace); token and blank-run origins of TLC-exported and seeded programs validated against Preproc (Preproc_Trace)",
+         "text": "The origin data structure is decided exhaustively for all push/merge sequences of the bound (and the empty-push counterexample is re-derived by a refutation config); for real runs every output byte's reported origin is compared by TLC with the replayed map and with the pushed segments, every token with the specification's copied/expanded/synthesised tag (exact offset for copies), blank runs with the copy/expansion rules, and get_origin of tokens with origin(first byte).",
+         "note": TRUST},
  "C05": {"level": "model_checking", "design_ref": "DESIGN.md 4.2, 5 (C05), Appendix A.3-A.5",
          "technique": "TLA+ spec Preproc (macro binding/substitution/pasting/rescan as a frame-stack machine) model-checked against a big-step IEEE 22.5.1 reference with TLC; TLC-exported define/usage programs and seeded larger ones replayed into the real preprocessor; traces validated by TLC (Preproc_Trace)",
          "text": "Every (formal list, body over a 10-token alphabet up to the stated length, argument list, redefinition) of the universe is model-checked (machine = big-step reference, surrounding text preserved) and replayed into the real preprocessor; seeded larger programs (up to 5 formals, nested brackets/strings/usages in actuals, nesting depth 3) are validated by the same trace specification: token sequence after pasting, error variant and payload, define table, origins. Known finding D2 is attributed through an exact deviation of the specification.",
